@@ -1,6 +1,7 @@
 import Rare.Drv.Expr
 import Rare.Model.C09
 import Rare.Model.C09Utf8
+import Rare.Spec.C09Frag
 /-!
 Line-protocol ops of C09.
 
@@ -15,6 +16,13 @@ Line-protocol ops of C09.
   split <text raw bytes>                          `splitTokenizedArguments`
   tree  <opt> <tokens> <elems> <keys>             a serialised (tree, style): the SPEC prints it, the model
                                                   compiles the print; the answer also carries `evalTree`
+  stree <opt> <tokens> <elems> <keys>             the same over the STANDARD registry: the tree must be in the fragment
+                                                  (`fragOk`, else `not-in-fragment`); the model compiles the SPEC's print
+                                                  and checks `print_compile_std_fragment` on it (no errors, value =
+                                                  `evalTree` under `stdSem`); the real side compiles ITS print with the real
+                                                  function table – so `stdSem` is compared with the real helpers
+  streex <opt> <tokens> <elems> <keys>            the same without the claim: any tree over the standard names; the
+                                                  theorem is checked when `fragOk` holds, otherwise only compile + evaluate
 -/
 namespace Rare.Drv.C09
 open Rare Rare.Expr Rare.Proto Rare.C09
@@ -165,6 +173,29 @@ def handle (args : List String) : String :=
         else s!"{ans} tpl={Hex.enc (encodeRunes tpl)} spec={Hex.enc spec}"
       | _ => "bad-args"
     | _, _ => "bad-args"
+  | [op, o, toks, el, ks] =>
+    if op == "stree" || op == "streex" then
+      match decHexList el, decHexList ks with
+      | some elems, some keys =>
+        let tl := toks.splitOn ","
+        match parseNode (tl.length + 1) tl with
+        | some (pt, []) =>
+          let ctx := Rare.Drv.Expr.mkCtx elems keys
+          let tpl := printTop (styleOf pt) (treeOf pt)
+          let ans := answerBytes Rare.Drv.Expr.registry (o == "1") (encodeRunes tpl) ctx
+          if fragOk (treeOf pt) then
+            let spec := evalTree (envOf ctx stdSem) (treeOf pt)
+            if ans != s!"ok errs=. val={Hex.enc spec}" then
+              s!"spec-violation model {ans} tpl={Hex.enc (encodeRunes tpl)} spec={Hex.enc spec}"
+            else ans
+          else if op == "stree" then s!"not-in-fragment tpl={Hex.enc (encodeRunes tpl)}"
+          else ans
+        | _ => "bad-args"
+      | _, _ => "bad-args"
+    else
+      match Rare.Drv.Expr.handle args with
+      | some a => a
+      | none => "bad-op"
   | _ =>
     match Rare.Drv.Expr.handle args with
     | some a => a
